@@ -159,6 +159,12 @@ def run_unit(unit, work, tier='quick'):
         res['loops'] = len(all_loops)
         loops = unit.get('loops', {})
         nocontract = [l for l in all_loops if l not in loops]
+        if unit.get('_mutate'):
+            pat, rep = unit['_mutate']
+            gen_m, cnt = re.subn(pat, rep, gen, count=1)
+            if cnt != 1:
+                raise Undecided('canary pattern %r did not match the generated code' % pat)
+            gen = gen_m
         gen2 = splice(gen, loops)
         with open(os.path.join(d, 'gen.c'), 'w') as f:
             f.write(gen2)
@@ -311,3 +317,17 @@ def flatten(prefix, v, vals):
         flatten('%s.%s' % (prefix, m.get('name')), m.get('value') or {}, vals)
     for e in v.get('elements', []) or []:
         flatten('%s[%s]' % (prefix, e.get('index')), e.get('value') or {}, vals)
+
+
+def run_canaries(unit, work, tier='quick'):
+    """Deliberate semantic edits of the *generated* C (never of /repo): each must make a named obligation fail,
+    otherwise the contracts are too weak to notice that kind of change.  Returns list of (edit, ok, detail)."""
+    out = []
+    for i, (pat, rep, why) in enumerate(unit.get('canaries', [])):
+        u2 = dict(unit)
+        u2['name'] = '%s__canary%d' % (unit['name'], i)
+        u2['_mutate'] = (pat, rep)
+        r = run_unit(u2, work, tier)
+        ok = r['status'] == 'failed'
+        out.append(dict(edit=why, caught=ok, by=[f['property'] for f in r.get('failed', [])][:3], status=r['status'], reason=r.get('reason', '')))
+    return out
